@@ -185,3 +185,78 @@ M("heap-up-nonstrict", ["~C05", "~C01"], HEAP,
   "            while i > 0 and self.cost[self.p[j]] > self.cost[self.p[i]]:\n                self.p[j], self.p[i] = self.p[i], self.p[j]\n\n                self.pos[self.p[i]] = i\n                self.pos[self.p[j]] = j\n\n                i = j\n                j = self.dad(i)\n\n        else:\n            # While the heap exists and the cost of post-node is smaller than current node\n            while i > 0 and self.cost[self.p[j]] < self.cost[self.p[i]]:",
   "            while i > 0 and self.cost[self.p[j]] >= self.cost[self.p[i]]:\n                self.p[j], self.p[i] = self.p[i], self.p[j]\n\n                self.pos[self.p[i]] = i\n                self.pos[self.p[j]] = j\n\n                i = j\n                j = self.dad(i)\n\n        else:\n            # While the heap exists and the cost of post-node is smaller than current node\n            while i > 0 and self.cost[self.p[j]] <= self.cost[self.p[i]]:")
 M("heap-dad-floordiv", ["~C05"], HEAP, "        return int(((i - 1) / 2))", "        return (i - 1) // 2")
+
+# ---------------------------------------------------------------------------
+# supervised predict (C03, C17-P1, C09)
+# ---------------------------------------------------------------------------
+M("pred-bound-short", ["C03"], SUP,
+  "                j < (self.subgraph.n_nodes - 1)\n", "                j < (self.subgraph.n_nodes - 2)\n")
+M("pred-exit-flipped", ["C03"], SUP,
+  "                and min_cost > self.subgraph.nodes[self.subgraph.idx_nodes[j + 1]].cost",
+  "                and min_cost < self.subgraph.nodes[self.subgraph.idx_nodes[j + 1]].cost")
+M("pred-cand-sum", ["C03", "C11"], SUP,
+  "                temp_min_cost = np.maximum(self.subgraph.nodes[l].cost, weight)",
+  "                temp_min_cost = self.subgraph.nodes[l].cost + weight")
+M("pred-cand-weight-only", ["C03"], SUP,
+  "                temp_min_cost = np.maximum(self.subgraph.nodes[l].cost, weight)",
+  "                temp_min_cost = weight")
+M("pred-label-from-k", ["C03"], SUP,
+  "                    current_label = self.subgraph.nodes[l].predicted_label",
+  "                    current_label = self.subgraph.nodes[k].predicted_label")
+M("pred-label-true-label", ["C03"], SUP,
+  "                    current_label = self.subgraph.nodes[l].predicted_label",
+  "                    current_label = self.subgraph.nodes[l].label")
+M("pred-accept-flipped", ["C03"], SUP,
+  "                if temp_min_cost < min_cost:", "                if temp_min_cost > min_cost:")
+M("pred-advance-conditional", ["C03"], SUP,
+  "                    current_label = self.subgraph.nodes[l].predicted_label\n\n                j += 1\n",
+  "                    current_label = self.subgraph.nodes[l].predicted_label\n\n                    j += 1\n")
+M("pred-init-cost-dropped", ["C03"], SUP,
+  "            min_cost = np.maximum(self.subgraph.nodes[k].cost, weight)", "            min_cost = weight")
+M("pred-start-at-one", ["C03"], SUP, "            j = 0\n\n            k = self.subgraph.idx_nodes[j]",
+  "            j = 1\n\n            k = self.subgraph.idx_nodes[j]")
+M("pred-extra-exit", ["C03"], SUP,
+  "                j < (self.subgraph.n_nodes - 1)\n", "                j < (self.subgraph.n_nodes - 1)\n                and j < 50\n")
+M("pred-store-other-node", ["C03", "C09"], SUP,
+  "            pred_subgraph.nodes[i].predicted_label = current_label",
+  "            pred_subgraph.nodes[0].predicted_label = current_label")
+M("pred-accept-nonstrict", ["~C03", "~C09", "~C11"], SUP,
+  "                if temp_min_cost < min_cost:", "                if temp_min_cost <= min_cost:")
+M("pred-exit-nonstrict", ["~C03", "~C11"], SUP,
+  "                and min_cost > self.subgraph.nodes[self.subgraph.idx_nodes[j + 1]].cost",
+  "                and min_cost >= self.subgraph.nodes[self.subgraph.idx_nodes[j + 1]].cost")
+M("pred-exit-removed", ["~C03"], SUP,
+  "                j < (self.subgraph.n_nodes - 1)\n                and min_cost > self.subgraph.nodes[self.subgraph.idx_nodes[j + 1]].cost\n",
+  "                j < (self.subgraph.n_nodes - 1)\n")
+M("pred-bound-rewritten", ["~C03"], SUP,
+  "                j < (self.subgraph.n_nodes - 1)\n", "                j + 1 < self.subgraph.n_nodes\n")
+
+# ---------------------------------------------------------------------------
+# semi-supervised (C15)
+# ---------------------------------------------------------------------------
+_SEMI_APPEND = ("        current_n_nodes = self.subgraph.n_nodes\n        for i, feature in enumerate(X_unlabeled):\n"
+                "            node = Node(current_n_nodes + i, 0, feature)\n\n            self.subgraph.nodes.append(node)\n\n")
+M("semi-append-before-prototypes", ["C15", "C02"], SEMI,
+  "        self._find_prototypes()\n\n" + _SEMI_APPEND, _SEMI_APPEND + "        self._find_prototypes()\n\n")
+M("semi-heap-before-append", ["C15"], SEMI,
+  _SEMI_APPEND + "        h = Heap(size=self.subgraph.n_nodes)\n\n",
+  "        h = Heap(size=self.subgraph.n_nodes)\n\n" + _SEMI_APPEND)
+M("semi-sum-for-max", ["C15", "C11"], SEMI,
+  "                        current_cost = np.maximum(h.cost[p], weight)", "                        current_cost = h.cost[p] + weight")
+M("semi-nonstrict-accept-and-outer", ["C15"], SEMI,
+  "                    if h.cost[p] < h.cost[q]:", "                    if h.cost[p] <= h.cost[q] and q >= 0:")
+M("semi-accept-nonstrict-only", ["C15"], SEMI,
+  "                        if current_cost < h.cost[q]:", "                        if current_cost <= h.cost[q]:")
+M("semi-label-from-p-true", ["C15"], SEMI,
+  "                            ].predicted_label = self.subgraph.nodes[p].predicted_label",
+  "                            ].predicted_label = self.subgraph.nodes[p].label")
+M("semi-skip-last-unlabeled", ["C15"], SEMI,
+  "        for i, feature in enumerate(X_unlabeled):", "        for i, feature in enumerate(X_unlabeled[:-1]):")
+M("semi-wrong-row", ["C15"], SEMI,
+  "            node = Node(current_n_nodes + i, 0, feature)", "            node = Node(current_n_nodes + i, 0, X_unlabeled[0])")
+M("semi-graph-from-unlabeled", ["C15"], SEMI,
+  "        self.subgraph = Subgraph(X_train, Y_train, I_train)", "        self.subgraph = Subgraph(X_unlabeled, Y_train, I_train)")
+M("semi-prototypes-requeued-cost", ["C15", "C02"], SEMI,
+  "                h.cost[i] = 0\n                h.insert(i)", "                h.cost[i] = c.EPSILON\n                h.insert(i)")
+M("semi-label-store-order", ["~C15"], SEMI,
+  "                        current_cost = np.maximum(h.cost[p], weight)", "                        current_cost = np.maximum(weight, h.cost[p])")
